@@ -61,7 +61,7 @@ def main():
         env = dict(os.environ)
         env.pop("VERIF_REPO", None)
         subprocess.run([sys.executable, "-c", "import sys; sys.path.insert(0, %r); import vlib\n"
-                        "for k in ('T1', 'T2', 'T3sites', 'T3globals'): vlib.regen(k)" % os.path.join(V, "tools")],
+                        "for k in ('T1', 'T1t', 'T2', 'T3sites', 'T3globals'): vlib.regen(k)" % os.path.join(V, "tools")],
                        cwd=V, env=env, capture_output=True, text=True)
     return 0
 
